@@ -209,7 +209,19 @@ def _resolve_identifier(
             f"Inherited expression does not expose attributes: {identifier.name}"
         )
 
-    for index, scope in enumerate(ordered_scopes):
+    # Lexical binders (let, rec sets, formals) win over `with` environments
+    # whatever their nesting order: look through them first, innermost first,
+    # and fall back to the `with` scopes only afterwards.
+    lookup_order = [
+        (index, scope)
+        for index, scope in enumerate(ordered_scopes)
+        if not getattr(scope, "is_with_env", False)
+    ] + [
+        (index, scope)
+        for index, scope in enumerate(ordered_scopes)
+        if getattr(scope, "is_with_env", False)
+    ]
+    for index, scope in lookup_order:
         scope_chain = tuple(reversed(ordered_scopes[index:]))
         outer_chain = (
             tuple(reversed(ordered_scopes[index + 1 :]))
